@@ -40,6 +40,8 @@ type LoopSpec struct {
 	InvSrc []string
 	Dec    *E
 	Hints  []*E
+	After    []*E // proved on every edge leaving the loop (loop postcondition)
+	AfterSrc []string
 }
 
 type CallSpec struct { // "at call <callee>#k: requires e" / "hint e"
@@ -162,7 +164,7 @@ func readDirectives(path string, prefixed bool) ([]string, []int, error) {
 
 var reSpecFunc = regexp.MustCompile(`^(?:pure|opaque)\s+func\s+(\w+)\s*\(([^)]*)\)\s*([^=]*?)\s*(?:=\s*(.*))?$`)
 var reFuncHdr = regexp.MustCompile(`^(func|extern)\s+(\S+?)(?:\s*\(([^)]*)\)\s*(?:\(([^)]*)\))?)?\s*$`)
-var reLoop = regexp.MustCompile(`^loop\s+(\d+)\s*:\s*(invariant|decreases|hint)\s+(.*)$`)
+var reLoop = regexp.MustCompile(`^loop\s+(\d+)\s*:\s*(invariant|decreases|hint|after)\s+(.*)$`)
 var reAtCall = regexp.MustCompile(`^at\s+call\s+(\S+?)#(\d+)\s*:\s*(requires|hint|bind|ghost_after|ghost)\s+(.*)$`)
 
 func parseParams(s string) []QVar {
@@ -558,6 +560,9 @@ func (ss *SpecSet) loadSpecFile(path string, prefixed bool, pkgDir string) error
 					ls.Dec = e
 				case "hint":
 					ls.Hints = append(ls.Hints, e)
+				case "after":
+					ls.After = append(ls.After, e)
+					ls.AfterSrc = append(ls.AfterSrc, m[3])
 				}
 			case strings.HasPrefix(d, "at "):
 				m := reAtCall.FindStringSubmatch(d)
